@@ -16,7 +16,7 @@ if [ -z "$NOSUITE" ]; then
 fi
 PROPS="$*"
 if [ -z "$PROPS" ]; then
-  PROPS=$(cd /verif && VERIF_REPO="$WT" /venv/bin/python - "$SD/patch.diff" <<'EOF'
+  PROPS=$(cd ${VERIF_HOME:-/verif} && VERIF_REPO="$WT" /venv/bin/python - "$SD/patch.diff" <<'EOF'
 import re, sys
 from harness import anchors
 touched = set(re.findall(r"^\+\+\+ b/(\S+)", open(sys.argv[1]).read(), re.M))
@@ -25,9 +25,9 @@ EOF
 )
 fi
 echo "== properties: $PROPS"
-cd /verif
+cd ${VERIF_HOME:-/verif}
 for p in $PROPS; do
   VERIF_REPO="$WT" ./check "$p" quick 2>&1 | grep -E "VIOLATION|KNOWN|^\[$p\]" | head -4
 done
 git -C "$WT" checkout -q -- .
-git -C /verif checkout -q -- evidence 2>/dev/null
+git -C ${VERIF_HOME:-/verif} checkout -q -- evidence 2>/dev/null
